@@ -150,7 +150,7 @@ def _stage1(job):
         shutil.rmtree(d, ignore_errors=True)
 
 
-def add_coordinates(job, g, profile):
+def add_coordinates(job, g, profile, force_res=None):
     """Turn `job` into a two-stage job: supply (part of) an earlier build as -c / -mc input."""
     from gen import topgen
     from oracles.final_state import write_gro_text
@@ -205,6 +205,8 @@ def add_coordinates(job, g, profile):
     if mode.startswith("res"):
         names = sorted({r[2] for r in residues if r[4] not in ignore})
         res_names = g.sample(names, g.randint(1, min(2, len(names))))
+        if force_res:
+            res_names = list(force_res)
     lines = []
     supplied_atoms = {}
     supplied_centres = {}
@@ -292,6 +294,7 @@ def add_user_templates(job, g):
             used.update(mt["residues"])
             # overridden residue types differ in content: no user template for those names
             names = [n for n in names if n not in mt.get("restype_override", {})]
+            names = [n for n in names if n not in {mt["residues"][int(i)] for i in mt.get("residue_override", {})}]
     names = [n for n in names if n in used]
     if not names:
         return False
@@ -333,7 +336,26 @@ def add_resname_clash(job, g):
     mt = spec["moltypes"][-1]
     rn = g.choice(sorted(set(mt["residues"])))
     base = spec["restypes"][rn]
-    mode = g.choice(["other_content", "permuted_names"])
+    mode = g.choice(["other_content", "permuted_names", "permuted_in_molecule", "permuted_in_molecule"])
+    if mode == "permuted_in_molecule":
+        # two residues with the same name, the same bond skeleton and different atom names in ONE molecule
+        idxs = [i for i, r in enumerate(mt["residues"]) if r == rn]
+        used = [m for m in spec["moltypes"] if mt["residues"].count(rn) >= 2 and len(base["atoms"]) - len(base["vsites"]) >= 2]
+        if len(idxs) < 2 or not used or base["vsites"]:
+            mode = "permuted_names"
+        else:
+            new = {k: (list(v) if isinstance(v, list) else v) for k, v in base.items()}
+            names = [a["name"] for a in base["atoms"]]
+            if g.random() < 0.5:
+                perm = names[1:] + names[:1]              # same names on other positions of the skeleton
+            else:
+                perm = [nm + "x" for nm in names]         # different atom names
+            new["atoms"] = [dict(a, name=perm[i]) for i, a in enumerate(base["atoms"])]
+            mt["residue_override"] = {str(idxs[-1]): new}
+            job["resname_clash"] = mode
+            if g.random() < 0.7:
+                job["opts"]["skip_filter"] = True
+            return True
     if mode == "other_content":
         new = topgen.gen_restype(g, rn, [a["name"] for a in spec["atypes"]], 7, allow_vs=False)
     else:
@@ -345,3 +367,33 @@ def add_resname_clash(job, g):
     mt["restype_override"] = {rn: new}
     job["resname_clash"] = mode
     return True
+
+
+def make_interior_kept(job, g):
+    """one linear chain type a^i b^j a^k whose b residues are supplied (kept) and whose a residues are rebuilt
+    (-res a): kept residues lie in the middle of the growth order, so rewinds pass over them"""
+    spec = job["spec"]
+    names = sorted(spec["restypes"])
+    if len(names) < 2:
+        return False
+    a, b = g.sample(names, 2)
+    i, j, k = g.randint(2, 4), g.randint(1, 2), g.randint(2, 4)
+    mt = spec["moltypes"][0]
+    mt.update({"shape": "linear", "residues": [a] * i + [b] * j + [a] * k,
+               "edges": [[x, x + 1] for x in range(i + j + k - 1)]})
+    mt.pop("restype_override", None)
+    spec["molecules"] = [[mt["name"], g.randint(1, 2)]]
+    from gen import topgen
+    job["opts"].pop("density", None)
+    job["opts"].update(topgen.choose_box(g, spec, {"box_modes": ["cubic", "noncubic"]}))
+
+    class _G:           # force the 'res' mode with -res a
+        def __init__(self, g):
+            self.g = g
+
+        def __getattr__(self, n):
+            return getattr(self.g, n)
+
+    ok = add_coordinates(job, g, {"coord_modes": ["res"]}, force_res=[a])
+    job["interior_kept"] = ok
+    return ok
